@@ -29,7 +29,7 @@ OWNER = {
     "put.seq": "C01", "put.nfid": "C06", "verify": "C01", "payload_end": "C24", "doctor.verify": "C21", "vecset": "C14", "ro.file": "C18", "card.query": "C27", "card.temporal": "C27", "card.set": "C27", "card.id": "C27",
     "capacity.accepted": "C24", "capacity.rejected": "C24",
     "card.source": "C26", "card.value": "C26", "card.queue": "C26",
-    "ticket.verified": "C25", "ticket.binding": "C25", "ticket.signed": "C25",
+    "card.latest": "C27", "ticket.verified": "C25", "ticket.binding": "C25", "ticket.signed": "C25",
 }
 
 
